@@ -26,8 +26,9 @@ K6 == INSTANCE Kernels WITH K <- 6      \* only the constant tables (as bit sets
 
 VARIABLES l, slots, it, poisoned, nchk, nviol, nskip,
           pcache,     \* [n, maps]: index maps of all input permutations of the size last canonized
-          bstart      \* line of the last rand_begin: the draws of a batch are read back from the trace itself
-vars == <<l, slots, it, poisoned, nchk, nviol, nskip, pcache, bstart>>
+          bstart,     \* line of the last rand_begin: the draws of a batch are read back from the trace itself
+          nkern       \* events whose representation was compared with an implementation-shaped kernel
+vars == <<l, slots, it, poisoned, nchk, nviol, nskip, pcache, bstart, nkern>>
 
 -----------------------------------------------------------------------------
 (* What is strict in which mode *)
@@ -69,10 +70,10 @@ ObsR(e) == IF "r" \in DOMAIN e THEN e.r ELSE NoObs
 
 -----------------------------------------------------------------------------
 (* Verdicts.  v.k \in {"ok", "viol", "poison"} *)
-Good(S, i) == [k |-> "ok", why |-> "", slots |-> S, it |-> i, chk |-> 1, pc |-> pcache]
-Setup(S, i) == [k |-> "ok", why |-> "", slots |-> S, it |-> i, chk |-> 0, pc |-> pcache]
-Bad(w) == [k |-> "viol", why |-> w, slots |-> slots, it |-> it, chk |-> 1, pc |-> pcache]
-Poison == [k |-> "poison", why |-> "", slots |-> slots, it |-> it, chk |-> 0, pc |-> pcache]
+Good(S, i) == [k |-> "ok", why |-> "", slots |-> S, it |-> i, chk |-> 1, pc |-> pcache, kern |-> 0]
+Setup(S, i) == [k |-> "ok", why |-> "", slots |-> S, it |-> i, chk |-> 0, pc |-> pcache, kern |-> 0]
+Bad(w) == [k |-> "viol", why |-> w, slots |-> slots, it |-> it, chk |-> 1, pc |-> pcache, kern |-> 0]
+Poison == [k |-> "poison", why |-> "", slots |-> slots, it |-> it, chk |-> 0, pc |-> pcache, kern |-> 0]
 
 \* logged result of a successful call, adopted as the new state (setup steps)
 Adopt(e, i) == IF e.out = "err" THEN Setup(slots, i)        \* a reported error leaves every slot as it was
@@ -334,10 +335,43 @@ OptVerdict(e) ==
           IN IF cost = opt THEN Good(slots, it)
              ELSE IF PrintT(<<"INFO", l, "cost", cost, "optimum", opt>>) THEN Bad("not minimum cost") ELSE Bad("?")
 
+(* Conformance of the implementation-shaped kernels of TwoLevel.tla (the algorithms of sop.rs, esop.rs,
+   soes.rs and the Display impls) with the code.  Where a kernel applies, its exact output - cube order
+   included - is compared with the logged representation.  A difference violates no property (the
+   representation is the library's choice): it is printed as DRIFT, which tells that the kernel model no longer
+   describes the code and that what mc/MC_TwoLevel establishes about the kernels no longer transfers.
+   0 = no kernel applies (or the operands are too large), 1 = agrees, 2 = drift. *)
+KernCheck(e) ==
+  LET agree(b) == IF b THEN 1 ELSE 2 IN
+  IF e.op = "t_text" /\ "av" \in DOMAIN e THEN
+     (CASE e.k = "cube" -> agree(e.r = CubeText(DC(e.av)))
+        [] e.k = "ecube" -> agree(e.r = EcubeText(DE(e.av)))
+        [] e.k = "sop" -> IF Len(e.av.cubes) <= 8 THEN agree(e.r = SopText(DCs(e.av.cubes))) ELSE 0
+        [] e.k = "esop" -> IF Len(e.av.cubes) <= 8 THEN agree(e.r = EsopText(DCs(e.av.cubes))) ELSE 0
+        [] e.k = "soes" -> IF Len(e.av.cubes) <= 8 THEN agree(e.r = SoesText(DEs(e.av.cubes))) ELSE 0)
+  ELSE IF e.op = "t_mk" /\ e.k \in {"sop", "esop", "soes"} THEN
+     (CASE e.c = "from_cubes" /\ e.k = "soes" -> agree(DEs(e.r.cubes) = DEs(e.cubes))
+        [] e.c = "from_cubes" -> agree(DCs(e.r.cubes) = DCs(e.cubes))
+        [] e.c \in {"from_lut_ref", "from_lut_val"} /\ e.k = "sop" /\ e.n <= 6 ->
+             agree(DCs(e.r.cubes) = SopFromLutK(e.n, ToSet(e.on)))
+        [] e.c \in {"from_lut_ref", "from_lut_val"} /\ e.k = "esop" /\ e.n <= 5 ->
+             agree(DCs(e.r.cubes) = EsopSweep(e.n, ToSet(e.on)))
+        [] OTHER -> 0)
+  ELSE IF e.op = "t_bin" /\ e.k = "sop" THEN
+     (IF Len(e.av.cubes) * Len(e.bv.cubes) > 40 \/ Len(e.av.cubes) + Len(e.bv.cubes) > 16 THEN 0
+      ELSE IF e.g = "and" THEN agree(DCs(e.r.cubes) = SopAndK(DCs(e.av.cubes), DCs(e.bv.cubes)))
+      ELSE agree(DCs(e.r.cubes) = SopOrK(DCs(e.av.cubes), DCs(e.bv.cubes))))
+  ELSE IF e.op = "t_bin" /\ e.k = "esop" THEN agree(DCs(e.r.cubes) = DCs(e.av.cubes) \o DCs(e.bv.cubes))
+  ELSE IF e.op = "t_bin" /\ e.k = "soes" THEN agree(DEs(e.r.cubes) = DEs(e.av.cubes) \o DEs(e.bv.cubes))
+  ELSE IF e.op = "t_not" /\ e.k = "esop" THEN agree(DCs(e.r.cubes) = Append(DCs(e.av.cubes), CubeOne))
+  ELSE IF e.op = "t_not" /\ e.k = "sop" THEN
+     (IF Len(e.av.cubes) > 3 \/ e.av.n > 5 THEN 0 ELSE agree(DCs(e.r.cubes) = SopNotK(DCs(e.av.cubes))))
+  ELSE 0
+
 TwoVerdict(e) ==
   IF ~TwoKindStrict(e.k, e.op) THEN Setup(slots, it)
   ELSE IF e.out # "ok" THEN Bad("outcome " \o e.out \o " not allowed")
-  ELSE IF TwoOK(e) THEN Good(slots, it)
+  ELSE IF TwoOK(e) THEN [Good(slots, it) EXCEPT !.kern = KernCheck(e)]
   ELSE Bad("wrong result")
 
 -----------------------------------------------------------------------------
@@ -425,14 +459,15 @@ Init == /\ l = 1
         /\ nchk = 0 /\ nviol = 0 /\ nskip = 0
         /\ pcache = [n |-> 0, maps |-> PermMaps(0), seqs |-> {}]
         /\ bstart = 0
+        /\ nkern = 0
 
 StepOf(e) ==
      IF e.op = "reset" THEN
         /\ slots' = [s \in 0..(NSLOT - 1) |-> NoVal]
         /\ it' = NoIter
         /\ poisoned' = FALSE
-        /\ UNCHANGED <<nchk, nviol, nskip, pcache, bstart>>
-     ELSE IF poisoned THEN UNCHANGED <<slots, it, poisoned, nchk, nviol, nskip, pcache, bstart>>
+        /\ UNCHANGED <<nchk, nviol, nskip, pcache, bstart, nkern>>
+     ELSE IF poisoned THEN UNCHANGED <<slots, it, poisoned, nchk, nviol, nskip, pcache, bstart, nkern>>
      ELSE \E v0 \in {Verdict(e)} :
           \E v \in {IF v0.k = "ok" /\ ~DualOK(e) THEN Bad("second trace differs") ELSE v0} :
              /\ slots' = v.slots
@@ -444,6 +479,8 @@ StepOf(e) ==
              /\ IF v.k = "viol" THEN PrintT(<<"VIOL", l, e.op, v.why>>) ELSE TRUE
              /\ pcache' = v.pc
              /\ bstart' = IF e.op = "rand_begin" THEN l ELSE bstart
+             /\ nkern' = nkern + (IF v.kern > 0 THEN 1 ELSE 0)
+             /\ IF v.kern = 2 THEN PrintT(<<"DRIFT", l, e.op, e.k>>) ELSE TRUE
 
 Step ==
   /\ l <= Len(Rec)
@@ -452,8 +489,8 @@ Step ==
 
 Finish == /\ l = Len(Rec) + 1
           /\ l' = l + 1
-          /\ PrintT(<<"DONE", Len(Rec), nchk, nviol, nskip>>)
-          /\ UNCHANGED <<slots, it, poisoned, nchk, nviol, nskip, pcache, bstart>>
+          /\ PrintT(<<"DONE", Len(Rec), nchk, nviol, nskip, nkern>>)
+          /\ UNCHANGED <<slots, it, poisoned, nchk, nviol, nskip, pcache, bstart, nkern>>
 
 Spec == Init /\ [][Step \/ Finish]_vars
 
